@@ -75,7 +75,7 @@ def safe (m : Map) : Bool := m.all safePair
 
 /-- the trigger the class of the open finding F08 was written for — pinned here, NOT regenerated: if the code's
 trigger changes, `Props.C08.quote_trigger_pinned` fails and failures outside this class are violations -/
-def needsQuotePinned (v : Bytes) : Bool := v.isEmpty || v.contains 61 || v.contains 44
+def needsQuotePinned (v : Bytes) : Bool := v.isEmpty || v.contains 44 || v.contains 61
 
 def safePairPinned (p : Bytes × Bytes) : Bool := safeKey p.1 && (needsQuotePinned p.2 || safeRaw p.2)
 
